@@ -157,3 +157,134 @@ Print Assumptions C19_block_cost_is_sum.
 Print Assumptions C19_block_cost_is_avm_sum.
 Print Assumptions C19_mixed_classification_refuted.
 Print Assumptions C19_versioned_mode_refuted.
+
+(* ------------------------------------------------------------------------------------------------------------
+   Extension (version, mode and cost reporting regenerated): Lemmas/VersionGenLemmas.v about Gen/VersionGen.v, the translation
+   of parse_teal.py _detect_execution_mode, _verify_version, the version slice of parse_teal, Teal contract type and
+   BasicBlock.cost.  Messages written to stderr are read as events through a fixed table of the six message texts. *)
+From Coq Require Import String List NArith ZArith Bool Arith.
+From Tealer Require Import Tables Syntax Parse Cfg KeysGen CfgGen VersionGen CfgLemmas SubLemmas CfgGenLemmas TableLemmas TotalParse Driver VersionLemmas VersionGenLemmas.
+
+(* on every source text the model parses: mode, version, reported events, and block costs of the regenerated code are those of the model *)
+Theorem C19_version_gen_on_sources :
+      forall (src : string) (p : list ins) (t : teal),
+       parse_program src = Ok p ->
+       parse_teal p = Ok t ->
+       parse_teal_version_gen p (seq 0 (Datatypes.length p)) =
+       Some (t_mode t, t_version t, vv_events (t_prog t) (t_version t)) /\
+       (forall v : N,
+        verify_version_gen p (seq 0 (Datatypes.length p)) v = Some (vv_error p v, vv_events p v)) /\
+       detect_execution_mode_gen p (seq 0 (Datatypes.length p)) = Some (detect_mode p) /\
+       (forall b : block, In b (t_blocks t) -> bb_cost_gen t b = Some (block_cost t b)).
+Proof. exact @version_gen_on_sources. Qed.
+
+(* the parser only builds instructions of known classes *)
+Theorem C19_parse_program_known :
+      forall (src : string) (p : list ins), parse_program src = Ok p -> known p.
+Proof. exact @parse_program_known. Qed.
+
+(* regenerated mode detection *)
+Theorem C19_detect_mode_gen_eq :
+      forall p : list ins,
+       known p -> detect_execution_mode_gen p (seq 0 (Datatypes.length p)) = Some (detect_mode p).
+Proof. exact @detect_execution_mode_gen_eq_prog. Qed.
+
+(* the first mode-specific instruction decides *)
+Theorem C19_detect_mode_gen_first_iff :
+      forall (p : list ins) (m : xmode),
+       known p ->
+       m <> MAny ->
+       detect_execution_mode_gen p (seq 0 (Datatypes.length p)) = Some m <->
+       (exists (p1 : list ins) (i : ins) (p2 : list ins),
+          p = p1 ++ i :: p2 /\
+          (forall j : ins, In j p1 -> mode_specific (i_op j) = false) /\ ins_mode (i_op i) = Some m).
+Proof. exact @detect_execution_mode_gen_first_iff. Qed.
+
+(* regenerated version verification: returned flag and events *)
+Theorem C19_verify_version_gen_eq :
+      forall (p : list ins) (v : N),
+       known p -> verify_version_gen p (seq 0 (Datatypes.length p)) v = Some (vv_error p v, vv_events p v).
+Proof. exact @verify_version_gen_eq_prog. Qed.
+
+(* an unsupported-field report exactly for a supported instruction whose field is newer than the program *)
+Theorem C19_verify_version_gen_field_iff :
+      forall (p : list ins) (v : N) (err : bool) (evs : list event) (ln : nat),
+       known p ->
+       verify_version_gen p (seq 0 (Datatypes.length p)) v = Some (err, evs) ->
+       In (EvFieldUnsupported ln) evs <->
+       (exists (i : ins) (iv : N) (kind : string) (fv : N),
+          In i p /\
+          i_line i = ln /\
+          ins_version (i_op i) = Some iv /\ (iv <= v)%N /\ ins_field (i_op i) = Some (kind, fv) /\ (v < fv)%N).
+Proof. exact @verify_version_gen_FlagField_iff. Qed.
+
+(* an unsupported-instruction report exactly for an instruction newer than the program *)
+Theorem C19_verify_version_gen_ins_iff :
+      forall (p : list ins) (v : N) (err : bool) (evs : list event) (ln : nat),
+       known p ->
+       verify_version_gen p (seq 0 (Datatypes.length p)) v = Some (err, evs) ->
+       In (EvInsUnsupported ln) evs <->
+       (exists (i : ins) (iv : N), In i p /\ i_line i = ln /\ ins_version (i_op i) = Some iv /\ (v < iv)%N).
+Proof. exact @verify_version_gen_FlagIns_iff. Qed.
+
+(* the mixed-mode report exactly when both a stateful-only and a stateless-only instruction occur *)
+Theorem C19_verify_version_gen_mixed_iff :
+      forall (p : list ins) (v : N) (err : bool) (evs : list event),
+       known p ->
+       verify_version_gen p (seq 0 (Datatypes.length p)) v = Some (err, evs) ->
+       In EvMixed evs <->
+       (exists i : ins, In i p /\ ins_mode (i_op i) = Some MStateful) /\
+       (exists j : ins, In j p /\ ins_mode (i_op j) = Some MStateless).
+Proof. exact @verify_version_gen_mixed_iff. Qed.
+
+(* the version slice of parse_teal *)
+Theorem C19_parse_teal_version_gen_eq :
+      forall (p : list ins) (t : teal),
+       known p ->
+       parse_teal p = Ok t ->
+       parse_teal_version_gen p (seq 0 (Datatypes.length p)) =
+       Some (t_mode t, t_version t, vv_events (t_prog t) (t_version t)).
+Proof. exact @parse_teal_version_gen_parse_teal. Qed.
+
+(* classification of the detected mode *)
+Theorem C19_parse_teal_version_gen_classification :
+      forall (p : list ins) (t : teal) (mode : xmode) (version : N) (evs : list event),
+       known p ->
+       parse_teal p = Ok t ->
+       parse_teal_version_gen p (seq 0 (Datatypes.length p)) = Some (mode, version, evs) ->
+       (mode = MAny <-> (forall i : ins, In i p -> mode_specific (i_op i) = false)) /\
+       (forall m : xmode,
+        m <> MAny ->
+        mode = m <->
+        (exists (p1 : list ins) (i : ins) (p2 : list ins),
+           p = p1 ++ i :: p2 /\
+           (forall j : ins, In j p1 -> mode_specific (i_op j) = false) /\ ins_mode (i_op i) = Some m)) /\
+       (mixed_of_events evs = false ->
+        forall m : xmode, m <> MAny -> mode = m <-> (exists i : ins, In i p /\ ins_mode (i_op i) = Some m)).
+Proof. exact @parse_teal_version_gen_classification. Qed.
+
+(* contract type is ApprovalProgram exactly for stateful mode *)
+Theorem C19_contract_type_gen_iff :
+      forall m : xmode,
+       (teal_init_contract_type_gen m = Some CT_ApprovalProgram <-> m = MStateful) /\
+       (teal_init_contract_type_gen m = Some CT_LogicSig <-> m <> MStateful).
+Proof. exact @teal_init_contract_type_gen_application_iff. Qed.
+
+(* regenerated BasicBlock.cost on the blocks of a parsed contract *)
+Theorem C19_bb_cost_gen_eq :
+      forall (p : list ins) (t : teal) (b : block),
+       known p -> parse_teal p = Ok t -> In b (t_blocks t) -> bb_cost_gen t b = Some (block_cost t b).
+Proof. exact @bb_cost_gen_parse_teal. Qed.
+
+Print Assumptions C19_version_gen_on_sources.
+Print Assumptions C19_parse_program_known.
+Print Assumptions C19_detect_mode_gen_eq.
+Print Assumptions C19_detect_mode_gen_first_iff.
+Print Assumptions C19_verify_version_gen_eq.
+Print Assumptions C19_verify_version_gen_field_iff.
+Print Assumptions C19_verify_version_gen_ins_iff.
+Print Assumptions C19_verify_version_gen_mixed_iff.
+Print Assumptions C19_parse_teal_version_gen_eq.
+Print Assumptions C19_parse_teal_version_gen_classification.
+Print Assumptions C19_contract_type_gen_iff.
+Print Assumptions C19_bb_cost_gen_eq.
